@@ -432,6 +432,47 @@ class RandomSets(HypPart):
         return Out(nt=nt, labels=labels)
 
 
+class EscapeVsCustom(EnumPart):
+    """A custom token whose only candidate match begins at a backslash-escaped punctuation character conflicts with the
+    built-in EscapeSequence (precedence 2, starts one character earlier, the match does not lie in its parse group): by the
+    statement the higher precedence wins and the escape, being earlier, wins a tie."""
+    name = 'escape-vs-custom'
+    rule = ('5 custom patterns x precedence 1..9 x parse_inner x 3 texts in which the only candidate starts at an escaped character: '
+            'the custom token is there iff its precedence exceeds 2; non-trivial = all; distinct = (pattern, precedence, flag, text)')
+    CASES = [(r'@([a-z]+)', 'see \\@bob now', 5, 9), (r'\{([^{}]*)\}', 'x \\{ab} y', 3, 7), (r'=(.+?)=', '\\=a= b', 1, 4),
+             (r'\(([a-z ]+)\)', 'a \\(bc) d', 3, 7), (r';[a-z]+', 'q \\;ab', 3, 6)]
+
+    def shards(self, tier):
+        return 1
+
+    def items(self, tier, k, n):
+        for ci in range(len(self.CASES)):
+            for prec in range(1, 10):
+                for inner in (True, False):
+                    yield {'case': ci, 'prec': prec, 'inner': inner}
+
+    def check(self, c):
+        try:
+            pat, text, s, e = self.CASES[c['case']]
+            prec, inner = int(c['prec']), bool(c['inner'])
+        except (KeyError, IndexError, TypeError, ValueError):
+            return Out(skip='malformed case')
+        T = _regex_type('Ta', pat, 0, prec, inner)
+        labels = ('precedence:%s2' % ('>' if prec > 2 else '<='),)
+        try:
+            doc = parse_under([T], text)
+            toks = doc.children[0].children
+        except Exception as exc:
+            return Out(Fail('no-raise', 'raised ' + exc_sig(exc), case=c, error=repr(exc)), nt=True, labels=labels)
+        spans = [t.span for t in toks if type(t).__name__ == 'Ta']
+        kinds = [type(t).__name__ for t in toks]
+        want = [(s, e)] if prec > 2 else []
+        if spans != want or (prec <= 2 and 'EscapeSequence' not in kinds):
+            return Out(Fail('precedence', 'custom token against an escape sequence', case=c, text=text, pattern=pat, expected_spans=want,
+                            actual_spans=spans, tokens=kinds), nt=True, labels=labels)
+        return Out(nt=True, labels=labels)
+
+
 class C16(Prop):
     id = 'C16'
     rule = PairTable.rule
@@ -443,7 +484,7 @@ class C16(Prop):
     )
 
     def parts(self):
-        return [PairTable(), NestedPairTable(), DelimiterTable(), RandomSets()]
+        return [PairTable(), NestedPairTable(), DelimiterTable(), EscapeVsCustom(), RandomSets()]
 
 
 PROP = C16()
